@@ -490,6 +490,10 @@ def monOp1 (m : Mon) (op : String) (args : List String) (impl : List String) (tr
                    | none => some ("bad C17:unclassified-lock-expression:" ++ e))
       | _ => some ("bad C17:unparsable-lock-pair:" ++ e)
     (m, bad.head?.getD "ok")
+  | "dnsq", _ =>
+    -- C07: a record handed to the caller never carries uninitialised (0x55-filled) fields
+    (m, if (impl.any fun t => (t.splitOn "5555555555555555").length > 1) then "bad C07:dns-record-built-from-uninitialised-memory" else "ok")
+  | "dnsqx", _ => (m, if (impl.any fun t => (t.splitOn "5555555555555555").length > 1) then "bad C07:dns-record-built-from-uninitialised-memory" else "ok")
   | "idle", [] =>
     -- all clients are gone and every timer has run: only the servers' own status probes (slot 0) may be alive
     let secs := sections out
